@@ -194,9 +194,43 @@ func relayerHistory(w *tracew.Writer, seed int64, run, depth int, period, timeou
 			}
 		}
 	}
-	c, _, err := NewStdChain(ChainOpts{ChainID: "goat-rel", Seed: seed % 7, NVals: 1, NMembers: 8, Voters: voters, Proposer: 0, Period: period, AcceptTimeout: timeout, ShareBls: share})
-	if err != nil {
-		return err
+	opts := ChainOpts{ChainID: "goat-rel", Seed: seed % 7, NVals: 1, NMembers: 8, Voters: voters, Proposer: 0, Period: period, AcceptTimeout: timeout, ShareBls: share}
+	var c *sim.Chain
+	var err error
+	if rr := rand.New(rand.NewSource(seed ^ 0x5eed)); len(voters) >= 2 && rr.Intn(4) == 0 {
+		// a MALFORMED relayer genesis is offered to the module's own import first: a voter listed twice (next to itself / with another
+		// one in between) or the proposer listed among the voters. The import must refuse it (then the history starts from the
+		// well-formed genesis); if it lets it through, the history starts from that group and the specification judges it
+		kind := rr.Intn(3)
+		bad := opts
+		bad.Mutate = func(g *sim.Genesis) {
+			vs := g.Relayer.Relayer.Voters
+			switch kind {
+			case 0:
+				g.Relayer.Relayer.Voters = append(append([]string{}, vs...), vs[0]) // [A, B, ..., A]
+			case 1:
+				g.Relayer.Relayer.Voters = append([]string{vs[0]}, vs...) // [A, A, B, ...]
+			default:
+				g.Relayer.Relayer.Voters = append(append([]string{}, vs...), g.Relayer.Relayer.Proposer)
+			}
+		}
+		func() {
+			defer func() {
+				if p := recover(); p != nil {
+					c, err = nil, fmt.Errorf("genesis refused: %v", p)
+				}
+			}()
+			c, _, err = NewStdChain(bad)
+		}()
+		if err != nil {
+			c = nil
+		}
+	}
+	if c == nil {
+		c, _, err = NewStdChain(opts)
+		if err != nil {
+			return err
+		}
 	}
 	defer c.Close()
 	s := NewSession(c, seed, run)
